@@ -32,7 +32,8 @@ static std::vector<uint64_t> keys_dataset(int id) {
     std::vector<uint64_t> v;
     if (id == 0) for (uint64_t i = 0; i < 24; ++i) v.push_back(100 + i);                                                        // one segment
     else if (id == 1) { uint64_t x = 7; for (int i = 0; i < 3000; ++i) { x += 1 + (uint64_t(i) * 2654435761u % 97) * (i % 13 == 0 ? 1000 : 1); v.push_back(x); } }   // several levels
-    else { uint64_t x = 50; for (int i = 0; i < 400; ++i) { x += (i % 7 == 0) ? 40 : 0; v.push_back(x + (i % 3 == 0)); } std::sort(v.begin(), v.end()); }          // duplicates
+    else if (id == 2) { uint64_t x = 50; for (int i = 0; i < 400; ++i) { x += (i % 7 == 0) ? 40 : 0; v.push_back(x + (i % 3 == 0)); } std::sort(v.begin(), v.end()); }          // duplicates
+    else { double x = 10; for (int i = 0; i < 4000; ++i) { x *= 1.004; v.push_back(uint64_t(x) + uint64_t(i)); } }                                   // exponential growth: first intercepts far from 0 for large epsilon
     return v;
 }
 static std::vector<uint64_t> keys_queries(const std::vector<uint64_t> &d) {
@@ -47,6 +48,7 @@ static std::vector<uint64_t> keys_queries(const std::vector<uint64_t> &d) {
 template<typename Index> struct StaticAdapter {
     using type = Index;
     static constexpr bool mutate_uses_source_state = false;   // mutate = assignment of a new index
+    static constexpr int ndatasets = 4;
     static Index *make(int ds) { auto d = keys_dataset(ds); return new Index(d.begin(), d.end()); }
     static std::string digest(Index &ix, int ds, Run &run, Cn &cn) {
         auto d = keys_dataset(ds); std::string s;
@@ -60,6 +62,7 @@ using MD = pgm::MultidimensionalPGMIndex<2, uint32_t, 1>;
 struct MultiAdapter {
     using type = MD;
     static constexpr bool mutate_uses_source_state = false;
+    static constexpr int ndatasets = 3;
     static std::vector<std::tuple<uint32_t, uint32_t>> pts(int ds) {
         std::vector<std::tuple<uint32_t, uint32_t>> v;
         if (ds == 0) for (uint32_t i = 0; i < 5; ++i) v.emplace_back(i, i);
@@ -86,6 +89,7 @@ template<typename V> struct DynAdapter {
     using type = pgm::DynamicPGMIndex<uint32_t, V, pgm::PGMIndex<uint32_t, 1, 1>>;
     using Dyn = type;
     static constexpr bool mutate_uses_source_state = true;    // mutate = updates on the source object
+    static constexpr int ndatasets = 3;
     static Dyn *make(int ds) {
         std::vector<std::pair<uint32_t, V>> init;
         if (ds == 1) for (uint32_t i = 0; i < 40; ++i) init.emplace_back(10 + 3 * i, DynVals<V>::get(i));
@@ -179,7 +183,7 @@ struct Explorer {
         for (int t_initial = 0; t_initial < 2; ++t_initial) {
             std::vector<std::vector<int>> hs; gen(len, t_initial, hs);
             std::stable_sort(hs.begin(), hs.end(), [](const std::vector<int> &a, const std::vector<int> &b) { return a.size() < b.size(); });   // shortest first
-            for (int d0 = 0; d0 < 3; ++d0) for (int d1 = 0; d1 < 3; ++d1) {
+            for (int d0 = 0; d0 < Ad::ndatasets; ++d0) for (int d1 = 0; d1 < Ad::ndatasets; ++d1) {
                 if (d0 == d1) continue;
                 Index *r0 = Ad::make(d0), *r1 = Ad::make(d1);
                 std::string ref0 = Ad::digest(*r0, d0, run, cn), ref1 = Ad::digest(*r1, d1, run, cn);
@@ -219,6 +223,7 @@ int main(int argc, char **argv) {
     std::vector<ClassEntry> classes = {
         CLS("PGMIndex<u64,1,1>", StaticAdapter<pgm::PGMIndex<uint64_t, 1, 1>>), CLS("PGMIndex<u64,4,0>", StaticAdapter<pgm::PGMIndex<uint64_t, 4, 0>>),
         CLS("Compressed<u64,1,1>", StaticAdapter<pgm::CompressedPGMIndex<uint64_t, 1, 1>>), CLS("Compressed<u64,2,0>", StaticAdapter<pgm::CompressedPGMIndex<uint64_t, 2, 0>>),
+        CLS("Compressed<u64,64,4>", StaticAdapter<pgm::CompressedPGMIndex<uint64_t, 64, 4>>), CLS("Compressed<u64,16,0>", StaticAdapter<pgm::CompressedPGMIndex<uint64_t, 16, 0>>), CLS("EliasFano<u64,16>", StaticAdapter<pgm::EliasFanoPGMIndex<uint64_t, 16>>),
         CLS("Bucketing<u64,1,4,32>", StaticAdapter<pgm::BucketingPGMIndex<uint64_t, 1, 4, 32>>), CLS("Bucketing<u64,1,100,0>", StaticAdapter<pgm::BucketingPGMIndex<uint64_t, 1, 100, 0>>),
         CLS("EliasFano<u64,1>", StaticAdapter<pgm::EliasFanoPGMIndex<uint64_t, 1>>), CLS("Multidimensional<2,u32,1>", MultiAdapter),
         CLS("Dynamic<u32,u32>", DynAdapter<uint32_t>), CLS("Dynamic<u32,string>", DynAdapter<std::string>),
@@ -235,10 +240,10 @@ int main(int argc, char **argv) {
     run.run_tasks(classes.size(), [&](uint64_t i) { classes[i].explore(run, cn, len); });
     mc::Run::EvidenceExtra ev;
     ev.states_counter = "history_steps_executed"; ev.transitions_counter = "target_queries_compared"; ev.nontrivial_counter = "histories_that_query_the_target_after_touching_the_source"; ev.eval_counter = "histories_executed";
-    ev.rule = "for each of 10 class instantiations (PGMIndex, Compressed, Bucketing, Elias-Fano, Multidimensional, Dynamic with arithmetic and string values) and every ordered pair of 3 datasets (single segment; several levels; duplicates / tombstones): every valid history of length <= " + std::to_string(len) +
+    ev.rule = "for each of 13 class instantiations (PGMIndex, Compressed, Bucketing, Elias-Fano, Multidimensional, Dynamic with arithmetic and string values) and every ordered pair of 3-4 datasets (single segment; several levels; duplicates / tombstones; exponential growth with first intercepts far from 0): every valid history of length <= " + std::to_string(len) +
               " over {copy-construct, move-construct, copy-assign, move-assign (where the class provides them), destroy source, mutate source, query target} ending in a query, with the target initially absent or holding another dataset; oracle: the target's digest over its whole query alphabet equals the digest of a freshly built original, under AddressSanitizer (heap objects, so a destroyed source is poisoned). "
               "State = one history step; non-trivial = the target is queried after the source was destroyed or mutated.";
-    ev.bounds = "history length <= " + std::to_string(len) + ", 6 ordered dataset pairs, 2 initial target states, 10 classes";
+    ev.bounds = "history length <= " + std::to_string(len) + ", 6-12 ordered dataset pairs, 2 initial target states, 13 classes";
     ev.assumptions = {"AddressSanitizer (recover mode, __asan_on_error hook) is the memory oracle", "a moved-from source is only destroyed or assigned to"};
     return run.finish(ev);
 }
